@@ -89,6 +89,11 @@ class Faults(Part):
         workers = case["workers"]
         dim = rng.randint(1, 3)
         bounds = rng.choice([[[-5.0, 5.0]] * dim, [[-3.0, -1.0]] * dim, [[1e-9, 2e-9]] * dim, [[-1e6, 1e6]] * dim])
+        mixed = dim >= 2 and rng.random() < 0.35
+        if mixed:
+            # parameters described differently: the first declares a rounding precision (its bounds are multiples of it), a later one is a
+            # narrow box without any: every parameter of a replacement design is sampled according to its OWN declaration
+            bounds = [[-5.0, 5.0]] + [rng.choice([[0.2, 0.4], [1e-9, 2e-9], [-3.0, -1.0]]) for _ in range(dim - 1)]
         gate = None
         if workers > 1:
             import threading
@@ -103,6 +108,8 @@ class Faults(Part):
                 time.sleep(d)
         rec = jobrec.Rec(dim=dim, m=rng.randint(1, 2), bounds=bounds, constrained=rng.random() < 0.5, script=script, gate=gate,
                          mode="serial" if workers == 1 else "parallel", workers=workers)
+        if mixed:
+            rec.problem.parameters[0]['precision'] = rng.choice([1.0, 0.5])
         vectors = [[rng.uniform(b[0], b[1]) for b in bounds] for _ in range(n)]
         rec.new_batch(vectors, pre=pre)
         exc = jobrec.evaluate_batch(rec, workers=workers)
